@@ -67,7 +67,15 @@ class _Env:
 
         class Publisher(UpnpRequester):
             async def async_http_request(self, method, url, headers=None, body=None):
-                env.log.append((method, url, dict(headers or {})))
+                # is the SID of an UNSUBSCRIBE still routed while the request is on its way?
+                still = False
+                if method == "UNSUBSCRIBE":
+                    sid0 = next((v for k, v in dict(headers or {}).items() if str(k).upper() == "SID"), None)
+                    try:
+                        still = sid0 is not None and env.handler.service_for_sid(sid0) is not None
+                    except Exception:  # noqa: BLE001
+                        still = False
+                env.log.append((method, url, dict(headers or {}), still))
                 r = env.script.pop(0) if env.script else ["raise", "UpnpConnectionError", None]
                 if r[0] == "raise":
                     raise env.make_exc(r[1], r[2], method, url)
@@ -477,7 +485,8 @@ class Plugin:
             if pending:
                 self._loop.run_until_complete(asyncio.gather(*pending, return_exceptions=True))
             reqs = []
-            for method, url, hdrs in env.log:
+            in_flight_routed = [bool(e[3]) for e in env.log]
+            for method, url, hdrs, _still in env.log:
                 up = {}
                 for name, val in hdrs.items():
                     up[str(name).upper()] = val if isinstance(val, str) else repr(val)
@@ -494,7 +503,7 @@ class Plugin:
                 if svc is not None:
                     routed.append([s, env.services.index(svc) if svc in env.services else 99])
             sfs = [h.sid_for_service(s) for s in env.services]
-            obs.append({"res": res, "reqs": reqs, "routed": sorted(routed), "sfs": sfs})
+            obs.append({"res": res, "reqs": reqs, "routed": sorted(routed), "sfs": sfs, "routed_in_flight": in_flight_routed})
         return obs
 
     # ------------------------------------------------------------------ printers
@@ -595,6 +604,9 @@ class Plugin:
                     return ("requests_valid", i)
                 if method == "UNSUBSCRIBE" and call[0].startswith("unsub") and sid in routed:
                     return ("unsubscribe_immediate", i)
+            if call[0].startswith("unsub") and any(o.get("routed_in_flight", [])):
+                # "once an unsubscribe has been issued its SID is no longer routed": also while the request is in flight
+                return ("unsubscribe_immediate", i)
         return None
 
     # ------------------------------------------------------------------ evidence helpers
